@@ -156,6 +156,8 @@ class Evaluator:
             return int(n["v"])
         if k == "FloatingLiteral":
             return float(n["v"])
+        if k == "StringLiteral":
+            return ("str", n.get("v"))
         if k == "CXXBoolLiteralExpr":
             return 1 if n["v"] else 0
         if k in ("CXXNullPtrLiteralExpr", "GNUNullExpr"):
@@ -357,16 +359,30 @@ class Evaluator:
                     self.wraps.extend(sub.wraps)
                 self.trace.extend(sub.trace)
                 r = getattr(sub, "ret", None)
-                if r is None or (isinstance(r, tuple) and r[0] != "ptr"):
+                if r is None or (isinstance(r, tuple) and r[0] not in ("ptr", "str")):
                     raise Unknown("inlined %s: %s" % (nm, r))
                 return r
             self.trace.append((nm, None, n))
             raise Unknown("call " + str(nm))
+        if k in ("CXXConstructExpr", "CXXTemporaryObjectExpr"):
+            # objects are not modelled, but the arguments are evaluated (calls in them are answered and traced)
+            for a in f.args(n):
+                try:
+                    self.ev(a)
+                except Thrown:
+                    raise
+                except Unknown:
+                    pass
+            raise Unknown(k)
         raise Unknown(k)
 
     def _bin(self, op, a, b, ct):
         if isinstance(a, tuple) or isinstance(b, tuple):
-            # symbolic element pointers ("ptr", base key, index)
+            # symbolic element pointers ("ptr", base key, index); string literals ("str", text) only compare with NULL
+            if (isinstance(a, tuple) and a[0] != "ptr") or (isinstance(b, tuple) and b[0] != "ptr"):
+                if op in ("==", "!=") and (a == 0 or b == 0):
+                    return 1 if (op == "!=") else 0
+                raise Unknown("arithmetic on %s" % (a if isinstance(a, tuple) else b)[0])
             if isinstance(a, tuple) and isinstance(b, int) and op in ("+", "-"):
                 return (a[0], a[1], a[2] + (b if op == "+" else -b))
             if isinstance(b, tuple) and isinstance(a, int) and op == "+":
